@@ -71,4 +71,31 @@ def fitEndInv (S : Schema) (doc : Node) (f t : Nat) (sl : Slice) : Option Bool :
       | _ => none
     | _, _ => none
 
+/-! ### loose validity of a request slice (Proofs/FitOpen.lean `UL`) as a decidable predicate -/
+
+/-- the last child open `oe` levels: closed nodes valid; the nodes of the open spine carry canonical marks, have a type
+    of the schema and children whose marks the type allows -/
+def rlB (S : Schema) : Nat → List Node → Bool
+  | 0, frag => S.checkKids frag
+  | oe + 1, frag =>
+    match frag.getLast? with
+    | some (.elem t _ m k) =>
+      S.checkKids frag.dropLast && canonicalMarks S m && decide (t < S.nodes.size) &&
+        k.all (fun c => (S.nodeType t).allowsMarks c.marks) && rlB S oe k
+    | _ => false
+
+/-- the first child open `os` levels, the last child `oe` levels -/
+def ulB (S : Schema) : Nat → Nat → List Node → Bool
+  | 0, oe, frag => rlB S oe frag
+  | os + 1, oe, .elem t _ m k :: rest =>
+    canonicalMarks S m && decide (t < S.nodes.size) && k.all (fun c => (S.nodeType t).allowsMarks c.marks) &&
+      (if rest.isEmpty then ulB S os (oe - 1) k else ulB S os 0 k && rlB S oe rest)
+  | _ + 1, _, _ => false
+
+/-- **the request slice is loosely valid** — what a slice cut from a valid document satisfies: its closed nodes are valid
+    (`Node.check`), the nodes of its two open spines carry canonical marks, have a type of the schema and children
+    whose marks that type allows (`openValid` of C01 does not ask the last of the spine nodes, which are validated when the
+    slice is joined; the Fitter closes them itself) -/
+def Slice.looseValid (S : Schema) (sl : Slice) : Bool := ulB S sl.openStart sl.openEnd sl.content
+
 end PM
